@@ -17,7 +17,7 @@
 (***************************************************************************)
 EXTENDS Naturals, Sequences, FiniteSets, TLC, Json
 
-CONSTANTS Layouts     \* set of [items : Seq(Item), pkgdoc, build, imports, sibling, embed]
+CONSTANTS Layouts     \* set of [items : Seq(Item), pkgdoc, build, imports, sibling, embed, pkggen]
 
 (* Item kinds
    [k |-> "decl", id, form (var|func|type|const), doc, trail, gen]        gen: a go:generate line sits in/above its doc
@@ -26,7 +26,8 @@ CONSTANTS Layouts     \* set of [items : Seq(Item), pkgdoc, build, imports, sibl
          nmeth, short, oneline, mdoc, trail, after, gap, long (a comment line much longer than the directive line below it),
          nm (how the interface is called relative to the file's other converter interface: std | prefix | long),
          mention (a PROSE line of the doc comment - of each method's doc comment for a converter interface - names a
-         directive such as //go:generate in the middle of the line; prose is carried over / forwarded like any other line)]
+         directive such as //go:generate in the middle of the line; prose is carried over / forwarded like any other line),
+         gen2 (the go:generate line is followed directly by a second directive line)]
    [k |-> "tmark", id]     a non-interface type whose doc carries a :convergen line
    [k |-> "vmark", id]     a VARIABLE of an interface type whose doc carries a :convergen line (no interface declaration)
    [k |-> "float", id]     a comment attached to nothing
@@ -34,7 +35,10 @@ CONSTANTS Layouts     \* set of [items : Seq(Item), pkgdoc, build, imports, sibl
    embed:   "none" | "file" | "sibling"   the first converter interface embeds an unmarked interface with one method,
             declared in this file (the item with id "emb") or in a sibling file: the methods of a converter
             interface are its method set (parser/method.go parseMethods), so the embedded method gets a
-            function too, while the embedded interface itself stays what it is *)
+            function too, while the embedded interface itself stays what it is;
+            "dup": it embeds TWO unmarked interfaces of this file (ids "emb", "emb2") that both declare that one method
+            with the same signature; "redecl": it embeds one and declares the same method again itself.  Either way
+            the method is ONE member of the method set and gets one function *)
 
 VARIABLES layout, i, out, rejected, pc
 vars == <<layout, i, out, rejected, pc>>
